@@ -9,6 +9,9 @@ From TskVerif Require Import C01.ParentProofs.
 From TskVerif Require Import C01.ProjProofs.
 From TskVerif Require Import C01.TreeProofs.
 From TskVerif Require Import C01.IndexProofs.
+From TskVerif Require Import C01.InductProofs.
+From TskVerif Require Import C01.CountProofs.
+From TskVerif Require Import C01.QueryProofs.
 Import ListNotations.
 Open Scope Z_scope.
 
@@ -147,6 +150,62 @@ Section WithTseq.
       intros y Hy u Hu. destruct (HsP y Hy) as [_ G]. auto.
   Qed.
 End WithTseq.
+
+Lemma counts_local_lemma L ns es Ins Rem q :
+  valid_edgesb L ns es = true -> index_sorted es Ins Rem -> mk_tseq L ns es Ins Rem = Ok q ->
+  forall o k t, tree_at_index q o k = Ok t ->
+  forall u, 0 <= u < zlen ns ->
+    exists a b,
+      get (t_ns t) u = Ok a /\ a = ind (q_samples q) u + csum (t_parent t) (t_ns t) u /\
+      get (t_nt t) u = Ok b /\ b = ind (o_tracked o) u + csum (t_parent t) (t_nt t) u.
+Proof.
+  intros HVb HI HQ o k t H u Hu.
+  destruct (counts_invariant L ns es Ins Rem q (valid_edgesb_spec _ _ _ HVb) HI HQ o k t H)
+    as (_ & _ & _ & _ & _ & LE1 & LE2).
+  destruct (LE1 u Hu) as (a & Ga & Ea). destruct (LE2 u Hu) as (b & Gb & Eb).
+  exists a, b. auto.
+Qed.
+
+Lemma tmq_tmf ns q u : q_nodes q = ns -> tmq q u = tmf ns u.
+Proof. intros <-. unfold tmq, tmf, node_time. destruct (get (q_nodes q) u); reflexivity. Qed.
+
+Lemma queries_correct_lemma L ns es Ins Rem q :
+  valid_edgesb L ns es = true -> index_sorted es Ins Rem -> mk_tseq L ns es Ins Rem = Ok q ->
+  forall o k t, tree_at_index q o k = Ok t ->
+  let N := zlen ns in let P := t_parent t in
+  (forall u, 0 <= u <= N -> exists l, path P u l) /\
+  (forall u p, get P u = Ok p -> p <> NULL -> 0 <= u < N /\ 0 <= p < N /\ tmq q u < tmq q p) /\
+  (forall u r, depth N t u = Ok r ->
+     (u = N /\ r = -1) \/ (u <> N /\ exists l, path P u (u :: l) /\ r = zlen l)) /\
+  (forall u v b l, 0 <= u <= N -> 0 <= v <= N -> path P u l ->
+     is_descendant N t u v = Ok b -> (b = true <-> In v l)) /\
+  (forall u v m lu lv, 0 <= u < N -> 0 <= v < N -> path P u lu -> path P v lv ->
+     mrca q t u v = Ok m ->
+     (m <> NULL -> In m lu /\ In m lv /\ forall a, In a lu -> In a lv -> tmq q m <= tmq q a) /\
+     (m = NULL -> forall a, In a lu -> ~ In a lv)).
+Proof.
+  intros HVb HI HQ o k t H N P.
+  pose proof (valid_edgesb_spec _ _ _ HVb) as HV.
+  destruct (counts_invariant L ns es Ins Rem q HV HI HQ o k t H) as (L0 & _ & _ & GV & MO & _).
+  destruct (mk_tseq_inv L ns es Ins Rem q HQ) as (_ & _ & _ & _ & _ & _ & _ & ENn & _ & ENs & _).
+  assert (ZL : zlen P = N + 1). { unfold zlen, P. rewrite L0. unfold N, zlen. lia. }
+  assert (MO' : forall u p, get P u = Ok p -> p <> NULL -> 0 <= u < N /\ 0 <= p < N /\ tmq q u < tmq q p).
+  { intros u p G NP. destruct (MO u p G NP) as (A & B & C). rewrite !(tmq_tmf ns q) by exact ENs. auto. }
+  split; [intros u Hu; eapply path_exists; eauto|].
+  split; [exact MO'|]. split; [|split].
+  - intros u r Hd. destruct (depth_spec _ _ _ _ Hd) as [[-> ->]|(NE & Hu & p & l & G & Pl & ->)]; [left; auto|].
+    right. split; [exact NE|]. exists l. split; [|reflexivity].
+    econstructor; eauto. unfold NULL; lia.
+  - intros u v b l Hu Hv Pl Hd. eapply is_descendant_spec; eauto.
+  - intros u v m lu lv Hu Hv Pu Pv Hm. unfold mrca in Hm. rewrite ENn in Hm. fold N in Hm.
+    replace ((u <? 0) || (N <? u) || (v <? 0) || (N <? v)) with false in Hm.
+    2:{ symmetry. repeat (apply orb_false_iff; split); apply Z.ltb_ge; lia. }
+    replace ((u =? N) || (v =? N)) with false in Hm.
+    2:{ symmetry. apply orb_false_iff; split; apply Z.eqb_neq; lia. }
+    bind_inv Hm. bind_inv Hm.
+    eapply (mrca_loop_spec q P); eauto; try (unfold NULL; lia).
+    intros u0 p0 G NP _. apply MO'; auto.
+Qed.
 
 (* --- the same for the load path (tsk_table_collection_build_index) --- *)
 
